@@ -425,6 +425,21 @@ Verdict(c, lines) ==
 \*                         (with -m 1 DSwap() then runs off the buffer: the program crashes)
 \*  "MotoLineOverflow"     S-record lines may carry up to 254 data bytes although count = data + 3..5 is one byte
 \* Deviation from the manual that is not a defect of the property: -l odd is rounded UP (manual: down).
+\*
+\* PER-GROUP STATE.  FirstBank, IntOffset, HSeg, ChkSum, MotRecType, RecCnt and GrpLineLen are locals of
+\* ProcessFile(): they live across the record groups of one code file and are only right because the group
+\* prologue sets them again for every record.  They are explicit emitter state here (st.loc, copied into the group
+\* state g by GroupOf and written back by GroupEnd); the prologue's re-initialisations are separate, named steps
+\* that the "Carry..." switches take out (no tree is known to have these defects: they are the sensitivity
+\* mutants of the model, P2Hex_MCcarry*.cfg must find a violation for each observable one):
+\*  "CarryFirstBank"   Intel-32 prologue without `FirstBank = False`: a record that ENDS exactly on a 64 KiB
+\*                     boundary leaves the "bank switch pending" flag set and the next record gets a spurious
+\*                     :02000004 for bank + 1
+\*  "CarryRecCnt"      RecCnt (S5 count) not recomputed for a later group
+\*  "CarryMotRecType"  MotRecType never lowered again (`else MotRecType = 0` missing): wider records than needed,
+\*                     still valid and decoding right - not observable by the property
+\*  "CarryGrpLineLen"  GrpLineLen (incl. the S-record cap) kept from the previous group - not observable either
+CarryDevs == {"CarryFirstBank", "CarryRecCnt", "CarryMotRecType", "CarryGrpLineLen"}
 PinnedDevs == {"MosRunningSum", "MosTerm4", "TekByteSums", "Intel32UnitBank", "MotoTypeUnrelocated",
                "Intel16NoRebase", "RangeOnlyCode", "LineSplitsUnits", "MotoLineOverflow"}
 
@@ -463,13 +478,16 @@ IntelExt(ty, hseg) == ILine(<<2, 0, 0, ty, Hi(hseg), Lo(hseg), (256 - ((2 + ty +
 
 \* emitter state: out = lines written, chk = the C variable ChkSum of ProcessFile (a Word), occ = FormatOccured,
 \* maxMoto/maxIntel, ncb = NumCBlocks, ndata = data lines written (used by the repaired MOS terminator)
-InitSt == [out |-> <<>>, chk |-> 0, occ |-> {}, maxMoto |-> 0, maxIntel |-> 0, ncb |-> 0, ndata |-> 0]
+\* loc = the ProcessFile() locals that survive a record group: FirstBank, IntOffset, HSeg, MotRecType, RecCnt,
+\*       GrpLineLen (ChkSum is st.chk); values as initialised at the top of ProcessFile()
+InitLoc == [fb |-> FALSE, io |-> 0, hseg |-> 0, mt |-> 0, reccnt |-> 0, gll |-> 0]
+InitSt == [out |-> <<>>, chk |-> 0, occ |-> {}, maxMoto |-> 0, maxIntel |-> 0, ncb |-> 0, ndata |-> 0, loc |-> InitLoc]
 
 \* --- group prologue ("Kopf einer Datenzeilengruppe") -------------------------------------------------
 \* g = group state: es ErgStart (already relative/relocated), el ErgLen in bytes, pos = bytes consumed,
 \*     stop = ErgStop (NOT relocated, as in the code), io IntOffset, fb FirstBank, mt MotRecType
 Scale(c, G) == IF c.o.m < 2 THEN G ELSE 1
-GroupOf(c, k, D) ==
+GroupOfL(c, k, loc, D) ==
   LET r == c.recs[k]  G == r.gran  S == r.seg  s == RStart(c, k)
       lo == CodeWinLo(c, S, D)  hi == CodeWinHi(c, S, D)
       es0 == Max2(lo, s)  stop == Min2(hi, s + RUnits(c, k) - 1)
@@ -479,34 +497,49 @@ GroupOf(c, k, D) ==
       es |-> es0 - (IF c.o.rel THEN lo ELSE 0) + c.o.reloc,
       el |-> (stop + 1 - es0) * G, pos |-> (es0 - s) * G, stop |-> stop,
       pos0 |-> (es0 - s) * G, el0 |-> (stop + 1 - es0) * G,
-      io |-> 0, fb |-> FALSE, mt |-> 0]
+      \* carried over from the previous group of the file until the prologue sets them
+      io |-> loc.io, fb |-> loc.fb, hseg |-> loc.hseg, mt |-> loc.mt, reccnt |-> loc.reccnt, gll |-> loc.gll]
+GroupOf(c, k, D) == GroupOfL(c, k, InitLoc, D)       \* window / selection part only (doit, el0, ...)
+\* what the group leaves behind for the next one
+GroupEnd(g, st) == [st EXCEPT !.loc = [fb |-> g.fb, io |-> g.io, hseg |-> g.hseg, mt |-> g.mt, reccnt |-> g.reccnt, gll |-> g.gll]]
 
-Prologue(c, g, st, D) ==
-  LET fmt == g.fmt  G == g.gran
+Prologue(c, g0, st, D) ==
+  LET fmt == g0.fmt  G == g0.gran
+      first == st.loc.gll = 0                      \* nothing has been converted yet in this file
+      \* "Statistik, Anzahl Datenzeilen ausrechnen": GrpLineLen and RecCnt are set for every group of every format
+      gllN == GrpLL(c.o, G, fmt, 0, D)
+      gll0 == IF "CarryGrpLineLen" \in D /\ ~first THEN g0.gll ELSE gllN
+      g == [g0 EXCEPT !.gll = gll0,
+                      !.reccnt = IF "CarryRecCnt" \in D /\ ~first THEN g0.reccnt ELSE (g0.el + gll0 - 1) \div gll0]
       outStop == g.es + (g.el \div G) - 1
       tyAddr == IF "MotoTypeUnrelocated" \in D THEN g.stop ELSE outStop
   IN
   CASE fmt = "MOTO" ->
          LET mt0 == IF tyAddr \div 16777216 # 0 THEN 2 ELSE IF tyAddr \div 65536 # 0 THEN 1 ELSE 0
-             mt == Max2(mt0, c.o.M - 1)
-             LL == GrpLL(c.o, G, fmt, mt, D)
-             reccnt == (g.el + LL - 1) \div LL
+             \* MotRecType = 2 / 1 / 0: the last branch is the reset of the previous group's type
+             mt1 == IF "CarryMotRecType" \in D /\ mt0 = 0 THEN g.mt ELSE mt0
+             mt == Max2(mt1, c.o.M - 1)
+             \* the count field is a single byte: GrpLineLen capped, RecCnt recomputed (repaired code)
+             capped == GrpLL(c.o, G, fmt, mt, D) # GrpLL(c.o, G, fmt, 0, D)
+             LL == IF capped /\ ~("CarryGrpLineLen" \in D /\ ~first) THEN GrpLL(c.o, G, fmt, mt, D) ELSE g.gll
+             reccnt == IF capped /\ ~("CarryRecCnt" \in D /\ ~first) THEN (g.el + LL - 1) \div LL ELSE g.reccnt
              s0 == IF "MOTO" \notin st.occ \/ c.o.sep THEN <<SLine(0, <<3, 0, 0, 252>>)>> ELSE <<>>
              s5 == IF c.o.rec5 THEN <<SLine(5, <<3, Hi(reccnt), Lo(reccnt), 255 - ((Lo(reccnt) + Hi(reccnt) + 3) % 256)>>)>> ELSE <<>>
-         IN [g |-> [g EXCEPT !.mt = mt],
+         IN [g |-> [g EXCEPT !.mt = mt, !.gll = LL, !.reccnt = reccnt],
              st |-> [st EXCEPT !.out = st.out \o s0 \o s5, !.occ = st.occ \cup {"MOTO"}, !.maxMoto = Max2(st.maxMoto, mt),
                                !.chk = IF c.o.rec5 THEN Lo(reccnt) + Hi(reccnt) + 3 ELSE st.chk]]
     [] fmt = "MOS" -> [g |-> g, st |-> [st EXCEPT !.occ = st.occ \cup {"MOS"}]]
     [] fmt = "INTEL" -> [g |-> [g EXCEPT !.io = 0], st |-> [st EXCEPT !.occ = st.occ \cup {"INTEL"}]]
     [] fmt = "INTEL16" ->
          LET b == g.es * G  io == b - (b % 16)  hseg == Word16(io \div 16)
-         IN [g |-> [g EXCEPT !.io = io \div G],
+         IN [g |-> [g EXCEPT !.io = io \div G, !.hseg = hseg],
              st |-> [st EXCEPT !.out = Append(st.out, IntelExt(2, hseg)), !.occ = st.occ \cup {"INTEL"},
                                !.maxIntel = Max2(st.maxIntel, 1), !.chk = 4 + Lo(hseg) + Hi(hseg)]]
     [] fmt = "INTEL32" ->
          LET sc == IF "Intel32UnitBank" \in D THEN G ELSE Scale(c, G)
              b == g.es * sc  io == b - (b % 65536)  hseg == Word16(io \div 65536)
-         IN [g |-> [g EXCEPT !.io = io \div sc, !.fb = FALSE],
+         \* `FirstBank = False`: the pending bank switch of the previous group must not leak into this one
+         IN [g |-> [g EXCEPT !.io = io \div sc, !.hseg = hseg, !.fb = IF "CarryFirstBank" \in D THEN g.fb ELSE FALSE],
              st |-> [st EXCEPT !.out = Append(st.out, IntelExt(4, hseg)), !.occ = st.occ \cup {"INTEL"},
                                !.maxIntel = Max2(st.maxIntel, 2), !.chk = 6 + Lo(hseg) + Hi(hseg)]]
     [] fmt = "DSK" -> [g |-> g, st |-> [st EXCEPT !.out = IF "DSK" \in st.occ THEN st.out ELSE Append(st.out, [k |-> "DH"]),
@@ -530,7 +563,7 @@ BufOf(c, g, n) ==
   IN IF c.o.m < 2 THEN sw ELSE SelectSeq([i \in 1..n |-> IF (i - 1) % G = c.o.m - 2 THEN sw[i] ELSE -2], LAMBDA x : x >= -1)
 
 LineStep(c, g0, st0, D) ==
-  LET fmt == g0.fmt  G == g0.gran  LL == GrpLL(c.o, G, fmt, g0.mt, D)
+  LET fmt == g0.fmt  G == g0.gran  LL == g0.gll
       \* "evtl. Folgebank fuer Intel32 ausgeben"
       bank == fmt = "INTEL32" /\ g0.fb
       sc == IF "Intel32UnitBank" \in D THEN 1 ELSE Scale(c, G)       \* scale of the 64K test
@@ -547,7 +580,8 @@ LineStep(c, g0, st0, D) ==
       split == fmt = "INTEL32" /\ off + (tl0 \div G) * sc >= 65536
       tl == IF split THEN (G \div sc) * (65536 - off)
             ELSE IF fmt = "ATMEL" THEN Min2(2, tl0) ELSE IF fmt = "MICO8" THEN Min2(4, tl0) ELSE tl0
-      g == [g0 EXCEPT !.io = io, !.fb = IF split THEN TRUE ELSE IF bank THEN FALSE ELSE g0.fb]
+      g == [g0 EXCEPT !.io = io, !.fb = IF split THEN TRUE ELSE IF bank THEN FALSE ELSE g0.fb,
+                      !.hseg = IF bank THEN hsegB ELSE IF rebase16 THEN hseg16 ELSE g0.hseg]
       buf == BufOf(c, g, tl)
       raw == SubSeq(c.recs[g.k].data, g.pos + 1, g.pos + tl)
       es == g.es
@@ -610,10 +644,14 @@ Epilogue(c, g, st, D) ==
 RECURSIVE Lines(_, _, _, _)
 Lines(c, g, st, D) == IF g.el <= 0 THEN st ELSE LET n == LineStep(c, g, st, D) IN Lines(c, n.g, n.st, D)
 
+\* the group state after its last line (the functional composition needs it for GroupEnd)
+RECURSIVE LastG(_, _, _, _)
+LastG(c, g, st, D) == IF g.el <= 0 THEN g ELSE LET n == LineStep(c, g, st, D) IN LastG(c, n.g, n.st, D)
+
 Group(c, k, st, D) ==
-  LET g0 == GroupOf(c, k, D) IN
+  LET g0 == GroupOfL(c, k, st.loc, D) IN
   IF ~g0.doit THEN st
-  ELSE LET p == Prologue(c, g0, st, D) IN Epilogue(c, p.g, Lines(c, p.g, p.st, D), D)
+  ELSE LET p == Prologue(c, g0, st, D) IN GroupEnd(LastG(c, p.g, p.st, D), Epilogue(c, p.g, Lines(c, p.g, p.st, D), D))
 
 \* --- terminators written by main() ---------------------------------------------------------------------
 Finish(c, st, D) ==
